@@ -120,6 +120,7 @@ where
     A: Clone + Send + Sync,
 {
     graph.ensure_undirected()?;
+    graph.ensure_not_multi_edges()?;
     let tads = get_triangles_and_degrees(graph, node_names);
     Ok(tads
         .into_iter()
@@ -151,6 +152,7 @@ where
     A: Clone + Send + Sync,
 {
     graph.ensure_undirected()?;
+    graph.ensure_not_multi_edges()?;
     if graph.get_all_nodes().is_empty() {
         return Ok(0.0);
     }
@@ -195,6 +197,7 @@ where
     A: Clone + Send + Sync,
 {
     graph.ensure_undirected()?;
+    graph.ensure_not_multi_edges()?;
     let tads = get_triangles_and_degrees(graph, node_names);
     Ok(tads
         .into_iter()
